@@ -171,7 +171,18 @@ def run_case(ctx, case):
     w0 = {"builder": case["builder"], "options": [case["rm_machines"], case["rm_jobs"]],
           "filter": run.filter_names}
     abandon = case.get("abandon_after")
+    sib = None
+    if case["seed"] % 8 == 6 and case["builder"] != "custom":
+        # a second dispatcher + graph + updater for the same instance object, on its own history
+        sib = Run(case["instance"], case.get("filter"), instance=run.instance)
+        ResidualGraphUpdater(sib.d, builders()[case["builder"]](run.instance), **kwargs)
+        ctx.count("histories_with_a_sibling_updater")
     while not run.done():
+        if sib is not None:
+            if sib.done():
+                sib.d.reset(); sib.r.reset()
+            o9, m9 = sib.choose(rng, rng.choice(gen.POLICIES))
+            sib.dispatch(o9, m9)
         if abandon is not None and len(r.history) >= abandon:
             # abandon the episode (possibly with operations in progress) and start over
             abandon = None
